@@ -124,6 +124,17 @@ def safeL (inRep inFlat : Bool) : List FItem → Bool
   | k :: ks => safeItem inRep inFlat k && safeL inRep inFlat ks
 end
 
+mutual
+/-- some section (flat or not) has no children: `Section.validate` rejects it ("has no questions or groups inside it",
+    section.py 76-83) -/
+def emptySec : FItem → Bool
+  | .q _ => false
+  | .sec _ _ _ _ ks => ks.isEmpty || emptySecL ks
+def emptySecL : List FItem → Bool
+  | [] => false
+  | k :: ks => emptySec k || emptySecL ks
+end
+
 /-- `flat` cell of a row: any non-empty value is truthy in Python -/
 def flatCell (r : Cells) : Bool :=
   match get r "flat" with
@@ -171,6 +182,7 @@ def formOutFlat (root : Str) (lists : List Str) (rows : List Cells) (settings : 
         let all := withMetaF rows' settings items
         if !(safeL false false all) then .error (.unsupported "flat group inside / around a repeat") else
         if !(wfFL all) then .error (.unsupported "ill-formed question data") else
+        if emptySecL all then .error (.err (.row 0 (.other "empty section".toList))) else
         match validateKids root (liftL all) with
         | .error e => .error (.err e)
         | .ok () =>
